@@ -172,7 +172,7 @@ theorem step_sids (guard : SplitGuard) (s : State) (op : Op) :
     ((step guard s op).1.ues = s.ues ∧ (step guard s op).1.sessionSeq = s.sessionSeq) ∨
     ∃ (ue ue' : Ue), (ue ∈ s.ues ∨ ue.cdr = []) ∧ (step guard s op).1.ues = putUe s.ues ue' ∧
       s.sessionSeq ≤ (step guard s op).1.sessionSeq ∧
-      (∀ k ∈ keysOf ue', k ∈ keysOf ue ∨ k = [] ∨
+      (∀ k ∈ keysOf ue', k ∈ keysOf ue ∨
         (∃ supi nf, k = sessionId supi nf s.sessionSeq ∧ (step guard s op).1.sessionSeq = s.sessionSeq + 1)) := by
   cases op with
   | create r =>
@@ -201,12 +201,13 @@ theorem step_sids (guard : SplitGuard) (s : State) (op : Op) :
           · by_cases h1 : r.one = true <;> simp [h1]
           · intro k hk
             simp only [keysOf] at hk
-            rcases keys_setSid hk with h | h
-            · by_cases h1 : r.one = true
-              · simp only [h1, if_true] at h; right; left; exact h
-              · simp only [h1, if_false, Bool.false_eq_true] at h
-                right; right; exact ⟨r.supi, nf, h, by simp [h1]⟩
-            · left; exact h
+            by_cases h1 : r.one = true
+            · -- a one-time event leaves the session map as it is
+              simp only [h1, if_true] at hk; left; exact hk
+            · simp only [h1, if_false, Bool.false_eq_true] at hk
+              rcases keys_setSid hk with h | h
+              · right; exact ⟨r.supi, nf, h, by simp [h1]⟩
+              · left; exact h
       · left; simp [hp]
   | update sid r =>
     simp only [step, update]
@@ -260,5 +261,33 @@ theorem step_sids (guard : SplitGuard) (s : State) (op : Op) :
     split
     · split <;> exact ⟨rfl, rfl⟩
     · exact ⟨rfl, rfl⟩
+
+/-- no subscriber's session map has the empty reference as a key (one-time events, whose Location ends in an empty
+    reference, open no session) -/
+def NoEmptyKey (s : State) : Prop := ∀ u ∈ s.ues, ([] : Bytes) ∉ keysOf u
+
+theorem NoEmptyKey_step (guard : SplitGuard) (s : State) (op : Op) (h : NoEmptyKey s) : NoEmptyKey (step guard s op).1 := by
+  rcases step_sids guard s op with ⟨h1, _⟩ | ⟨ue, ue', hmem, hues, _, hkeys⟩
+  · intro u hu; rw [h1] at hu; exact h u hu
+  · intro u hu hk
+    rw [hues] at hu
+    rcases mem_putUe hu with hu' | hu'
+    · subst hu'
+      rcases hkeys [] hk with hk' | ⟨a, b, hk', _⟩
+      · rcases hmem with hm | hm
+        · exact h ue hm hk'
+        · simp [keysOf, hm] at hk'
+      · exact sessionId_ne_nil _ _ _ hk'.symm
+    · exact h u hu' hk
+
+theorem NoEmptyKey_run (guard : SplitGuard) (ops : List Op) : ∀ s, NoEmptyKey s → NoEmptyKey (run guard s ops) := by
+  induction ops with
+  | nil => intro s h; exact h
+  | cons op r ih => intro s h; exact ih _ (NoEmptyKey_step guard s op h)
+
+theorem lookupSid_none_of_not_key {m : List (Bytes × Nat)} {sid : Bytes} (h : sid ∉ m.map (·.1)) : lookupSid m sid = none := by
+  cases hl : lookupSid m sid with
+  | none => rfl
+  | some i => exact absurd (key_of_lookup hl) h
 
 end Chf.Charging
